@@ -101,6 +101,10 @@ def run(rep, tier):
     # table lookup as an opaque value, so this is a separate obligation)
     from props import c14
     c14.pow10_rule(rep, us["utils/num2str.h"])
+    # the INI store's pointer array: every slot store / memmove is preceded by a reservation made for the current count
+    # (shared with C17, where the rule lives)
+    from props import c17
+    rep.floor("INI slot stores and reservations", c17.slot_dominance(rep, us["src/utils/ini.c"]), 4)
     rep.floor("functions analysed", nfn, 130)
     rep.floor("tracked memory accesses", total, 300)
     return driver.finish(
